@@ -385,9 +385,23 @@ def download(world, kind, snap, blob, obj):
     if key not in _DL:
         if len(_DL) > 8000:
             _DL.clear()
-        _DL[key] = list(_zk.download_batch(
-            world.admin, info['hist'] + '/' + snap, info['table'], obj))
+        try:
+            _DL[key] = frozenset(_zk.download_batch(
+                world.admin, info['hist'] + '/' + snap, info['table'], obj))
+        except Exception as exc:  # pylint: disable=broad-except
+            err = _raised(exc, ('download_batch', snap))
+            err['clause'] = 'snapshot-download-failed'
+            _DL[key] = _Failed(err)
     return _DL[key]
+
+
+class _Failed(frozenset):
+    """Empty result of a download_batch call that raised."""
+
+    def __new__(cls, err):
+        self = frozenset.__new__(cls)
+        self.err = err
+        return self
 
 
 # -- runs ---------------------------------------------------------------------
@@ -478,6 +492,7 @@ def check_archive(world, before, where, out, stats):
     table = info['table']
     edge = now() - EXPIRES
     harness_rows = None
+    failed_seen = set()
     for path in sorted(before.live):
         stats['records_checked'] += 1
         obj = _obj_of(kind, path)
@@ -511,8 +526,19 @@ def check_archive(world, before, where, out, stats):
                                   {'path': path, 'expected': want,
                                    'rows': [r[2] for _sn, r in in_rows]}))
             else:
-                got = any(name in download(world, kind, sn, blob, obj)
-                          for sn, blob in snaps.items())
+                got = False
+                for sn, blob in snaps.items():
+                    res = download(world, kind, sn, blob, obj)
+                    if name in res:
+                        got = True
+                        break
+                    if isinstance(res, _Failed) and \
+                            (sn, obj) not in failed_seen:
+                        failed_seen.add((sn, obj))
+                        err = dict(res.err)
+                        err['detail'] = dict(err['detail'], where=where,
+                                             snapshot=sn, object=obj)
+                        out.append(err)
                 if not got and in_rows:
                     out.append(_v('archived-event-not-returned-by-download',
                                   'trace._zk.download_batch', where,
@@ -634,10 +660,15 @@ def build(case):
     if fam == 'T':
         w = base_world('trace', case['nsnap']).clone()
         sched = []
-        for inst, (is_sched, ages) in zip(INSTANCES, case['instances']):
+        fin = case.get('fin') or [False] * len(case['instances'])
+        for inst, (is_sched, ages), is_fin in zip(INSTANCES,
+                                                  case['instances'], fin):
             if is_sched:
                 w.add_scheduled(inst)
                 sched.append(inst)
+            if is_fin:
+                # an exit record of an earlier run of the instance
+                w.add_finished(inst, age_ms('W'))
             for j, a in enumerate(ages):
                 w.add_event('trace', inst, age_ts(a), 'pending', 'e%d' % j)
         return w, 'trace', ('trace', case['batch']), sched
@@ -645,10 +676,26 @@ def build(case):
         w = base_world('finished', case['nsnap']).clone()
         w.order = case.get('order', 'ins')
         w._bind()
-        for inst, a in zip(INSTANCES, case['finished']):
+        sch = case.get('sched') or [False] * len(case['finished'])
+        for inst, a, is_sched in zip(INSTANCES, case['finished'], sch):
             if a is not None:
                 w.add_finished(inst, age_ms(a))
+            if is_sched:
+                w.add_scheduled(inst)
         return w, 'finished', ('finished', case['batch']), []
+    if fam == 'Z':
+        # one unscheduled instance with n well-old events whose names are
+        # padded to name_len characters; one batch = all of them
+        w = base_world('trace', 0).clone()
+        inst = INSTANCES[0]
+        head = '%s,%s,%s,pending,' % (inst, repr(age_ts('W')), HOST)
+        pad = max(0, case['name_len'] - len(head) - 8)
+        w.zk_ms = int(age_ts('W') * 1000)
+        shard = z.path.trace(inst, 'x').rsplit('/', 1)[0]
+        w.admin.ensure_path(shard)
+        for j in range(case['n']):
+            w.admin.create('%s/%s%07d-%s' % (shard, head, j, 'x' * pad), b'')
+        return w, 'trace', ('trace', case['n']), []
     if fam == 'S':
         w = base_world('server', case['nsnap']).clone()
         w.order = case.get('order', 'ins')
@@ -810,6 +857,48 @@ def _second_cycle_part(base, case, sched, out, stats):
     check_archive(w2, before2, where, out, stats)
 
 
+MIB = 1024 * 1024
+
+
+def _size_part(base, case, out, stats):
+    """Upload -> download round trip of one big batch: every uploaded row
+    must come back through the real download_batch (no cuts here)."""
+    before = Before(base, 'trace', [])
+    if len(before.live) != case['n']:
+        raise HarnessError('size case built %d events' % len(before.live))
+    stats['records_before'] += len(before.live)
+    w = base.clone()
+    step = ('trace', case['n'])
+    err = _complete(w, step)
+    stats['runs'] += 1
+    if err:
+        out.append(err)
+        return
+    snaps = w.snapshots('trace')
+    if w.uploads != 1 or len(snaps) != 1 or w.live('trace'):
+        raise HarnessError('size case: %d uploads, %d live'
+                           % (w.uploads, len(w.live('trace'))))
+    blob = list(snaps.values())[0]
+    raw = len(zlib.decompress(blob))
+    stats['size_cases'] += 1
+    stats['size_rows_uploaded'] += case['n']
+    stats['size_uncompressed_bytes_%dx%d' % (case['n'],
+                                             case['name_len'])] = raw
+    if raw > 4 * MIB:
+        stats['size_cases_above_4MiB'] += 1
+    if raw > 16 * MIB:
+        stats['size_cases_above_16MiB'] += 1
+    if case.get('min_mib') and raw <= case['min_mib'] * MIB:
+        raise HarnessError('size case %r is only %d bytes' % (case, raw))
+    stats['cases_with_archived_records'] += 1
+    check_archive(w, before, 'after one batch of %d events, snapshot %d '
+                  'bytes uncompressed (%d compressed)'
+                  % (case['n'], raw, len(blob)), out, stats)
+    _ROWS.clear()
+    _DL.clear()
+    scratch_sweep()
+
+
 def run_case(case):
     """-> (violations, stats).  Deterministic function of the case."""
     out = []
@@ -819,6 +908,9 @@ def run_case(case):
     fam = case['family']
     if fam == 'H':
         _prune_part(base, kind, case['max_count'], out, stats)
+        return out, stats
+    if fam == 'Z':
+        _size_part(base, case, out, stats)
         return out, stats
     before = Before(base, kind, sched)
     stats['records_before'] += len(before.live)
@@ -871,6 +963,14 @@ def _prune_part(base, kind, max_count, out, stats):
 
 
 # -- menus ----------------------------------------------------------------------
+SIZE_MENU = {
+    # (events in the batch, event name length, uncompressed size must exceed)
+    'quick': [(50, 80, 0), (3000, 150, 1), (12000, 150, 4)],
+    'thorough': [(50, 80, 0), (3000, 150, 1), (12000, 150, 4),
+                 (5000, 1000, 8), (25000, 300, 16)],
+}
+
+
 def menus(tier):
     quick = tier == 'quick'
     inst2 = [(s, m) for s in (False, True)
@@ -889,6 +989,21 @@ def menus(tier):
                                   'instances': [a, b], 'batch': batch,
                                   'nsnap': ns,
                                   'prune': (1, 2) if batch == 1 else ()})
+    # T with exit records: every instance independently {scheduled} x {has a
+    # /finished node}; at least one instance has one (the rest is above)
+    ev = multisets(AGES, 1 if quick else 2)
+    inst_f = [(s, f, m) for s in (False, True) for f in (False, True)
+              for m in ev]
+    for a in inst_f:
+        for b in inst_f:
+            if not (a[1] or b[1]):
+                continue
+            for batch in batches:
+                for ns in (0, 1):
+                    cases.append({'family': 'T',
+                                  'instances': [(a[0], a[2]), (b[0], b[2])],
+                                  'fin': [a[1], b[1]],
+                                  'batch': batch, 'nsnap': ns, 'prune': ()})
     if not quick:
         # T: three instances, the third shares a shard with the first
         for a in inst_mid:
@@ -913,6 +1028,19 @@ def menus(tier):
                                   'batch': batch, 'nsnap': ns,
                                   'order': order,
                                   'prune': (1, 2) if batch == 1 else ()})
+    # F with scheduled nodes: every instance independently {scheduled}
+    for combo in itertools.product(fin, repeat=ninst):
+        for sch in itertools.product((False, True), repeat=ninst):
+            if not any(sch):
+                continue
+            for batch in batches:
+                cases.append({'family': 'F', 'finished': list(combo),
+                              'sched': list(sch), 'batch': batch,
+                              'nsnap': 0, 'order': 'ins', 'prune': ()})
+    # Z: size of one snapshot (events, name length, stated lower bound MiB of
+    # the uncompressed sqlite file)
+    for n, ln, mib in SIZE_MENU['quick' if quick else 'thorough']:
+        cases.append({'family': 'Z', 'n': n, 'name_len': ln, 'min_mib': mib})
     # S: server trace
     srv = multisets((0.0, 1.0, 2.0), 2 if quick else 3)
     for a in srv:
@@ -939,14 +1067,18 @@ def menus(tier):
 def case_size(case):
     fam = case['family']
     if fam == 'T':
-        return (1, sum(len(m) for _s, m in case['instances']),
+        return (1, sum(len(m) for _s, m in case['instances']) +
+                sum(1 for f in case.get('fin') or () if f),
                 len(case['instances']), case['nsnap'], case['batch'])
     if fam == 'F':
-        return (0, sum(1 for a in case['finished'] if a), 0, case['nsnap'],
-                case['batch'])
+        return (0, sum(1 for a in case['finished'] if a) +
+                sum(1 for x in case.get('sched') or () if x), 0,
+                case['nsnap'], case['batch'])
     if fam == 'S':
         return (2, sum(len(m) for m in case['servers']), 0, case['nsnap'],
                 case['batch'])
+    if fam == 'Z':
+        return (-1, -case['n'] * case['name_len'], 0, 0, 0)   # biggest first
     return (3, case['n'], 0, 0, case['max_count'])
 
 
